@@ -5,7 +5,7 @@
 
 template <class R, class El> struct MS {
   using E = El; using queue = xenium::michael_scott_queue<typename El::type, xenium::policy::reclaimer<R>>;
-  static constexpr bool keeps_rejected = false;
+  static constexpr bool keeps_rejected = false; static constexpr bool strong_blocks = false;
   static queue* create() { return new queue; }
   static void cfg() { xv::ev("cfg", "kind_fifo"); }
   static bool push(queue& q, typename El::type&& v) { q.push(std::move(v)); return true; }
